@@ -61,13 +61,26 @@ class MediaList(cssutils.util._NewListBase):
     def __str__(self):
         return f"<cssutils.stylesheets.{self.__class__.__name__} object mediaText={self.mediaText!r} at 0x{id(self):x}>"
 
+    def _mqindexes(self):
+        "positions of the media queries in the item list (which holds comments too)"
+        return [i for i, item in enumerate(self._seq) if item.type == 'MediaQuery']
+
     def __iter__(self):
         for item in self._seq:
             if item.type == 'MediaQuery':
-                yield item
+                yield item.value
+
+    def __len__(self):
+        return len(self._mqindexes())
+
+    def __getitem__(self, index):
+        return self._seq[self._mqindexes()[index]].value
+
+    def __delitem__(self, index):
+        del self._seq[self._mqindexes()[index]]
 
     length = property(
-        lambda self: len(list(self)),
+        lambda self: len(self),
         doc="The number of media in the list (DOM readonly).",
     )
 
@@ -133,7 +146,7 @@ class MediaList(cssutils.util._NewListBase):
             for item in seq:
                 # filter for doubles?
                 if item.type == 'MediaQuery':
-                    mediaType = item.value.mediaType
+                    mediaType = normalize(item.value.mediaType)
                     if mediaType:
                         if mediaType == 'all':
                             # remove anthing else and keep all+comments(!) only
@@ -175,7 +188,7 @@ class MediaList(cssutils.util._NewListBase):
         # TODO: remove duplicates?
         newMedium = self.__prepareset(newMedium)
         if newMedium:
-            self._seq[index] = (newMedium, 'MediaQuery', None, None)
+            self._seq[self._mqindexes()[index]] = (newMedium, 'MediaQuery', None, None)
 
     def appendMedium(self, newMedium):
         """Add the `newMedium` to the end of the list.
@@ -199,7 +212,7 @@ class MediaList(cssutils.util._NewListBase):
         newMedium = self.__prepareset(newMedium)
 
         if newMedium:
-            mts = [normalize(item.value.mediaType) for item in self]
+            mts = [normalize(mq.mediaType) for mq in self]
             newmt = normalize(newMedium.mediaType)
 
             self._seq._readonly = False
@@ -248,7 +261,7 @@ class MediaList(cssutils.util._NewListBase):
         oldMedium = normalize(oldMedium)
 
         for i, mq in enumerate(self):
-            if normalize(mq.value.mediaType) == oldMedium:
+            if normalize(mq.mediaType) == oldMedium:
                 del self[i]
                 break
         else:
